@@ -8,15 +8,17 @@ import (
 )
 
 type userFunction struct {
-	Parameters []*ast.Identifier
-	Block      *ast.BlockStatement
+	// unexported: a template must not be able to reach (and modify) the parsed
+	// program through a function value (f.parameters, f.Block)
+	parameters []*ast.Identifier
+	block      *ast.BlockStatement
 }
 
 func (f *userFunction) String() string {
 	var out bytes.Buffer
 
 	params := []string{}
-	for _, p := range f.Parameters {
+	for _, p := range f.parameters {
 		params = append(params, p.String())
 	}
 
@@ -24,7 +26,7 @@ func (f *userFunction) String() string {
 	out.WriteString("(")
 	out.WriteString(strings.Join(params, ", "))
 	out.WriteString(") {\n")
-	out.WriteString(f.Block.String())
+	out.WriteString(f.block.String())
 	out.WriteString("\n}")
 
 	return out.String()
